@@ -22,7 +22,13 @@ pub fn number_to_column(i: i32) -> (r: Option<String>)
     ensures r.is_some() <==> 1 <= i <= 16384
 { unimplemented!() }
 
-pub open spec fn ref_str() -> Seq<char> { "#REF!"@ }
+#[verifier::external_body] pub struct LanguageRest { _o: u8 }
+//@type base/src/language/mod.rs Errors
+pub struct Language { pub errors: Errors, pub rest: LanguageRest }      // context shell (D5)
+/// what a broken reference prints: the #REF! name of the language the formula is printed in
+pub open spec fn ref_str(language: &Language) -> Seq<char> { language.errors.r#ref@ }
+pub trait VerifCopy { fn verif_copy(&self) -> (r: String); }
+impl VerifCopy for String { #[verifier::external_body] fn verif_copy(&self) -> (r: String) ensures r@ == self@ { self.to_string() } }
 
 //@fn base/src/expressions/parser/stringify.rs stringify_reference
 //@spec
@@ -35,23 +41,23 @@ pub open spec fn ref_str() -> Seq<char> { "#REF!"@ }
             let row0 = if reference.absolute_row { reference.row as int } else { reference.row + context.unwrap().row };
             let col0 = if reference.absolute_column { reference.column as int } else { reference.column + context.unwrap().column };
             match disp(*displace_data, reference.sheet_index, full_row, full_column, row0, col0) {
-                None => r@ == ref_str(),
-                Some((r2, c2)) => (r2 < 1 || r2 > 1048576 || c2 < 1 || c2 > 16384) ==> r@ == ref_str(),
+                None => r@ == ref_str(language),
+                Some((r2, c2)) => (r2 < 1 || r2 > 1048576 || c2 < 1 || c2 > 16384) ==> r@ == ref_str(language),
             }
         }),
 //@rewrite `) -> String {` => `) -> (r: String) {`
 //@rewrite `crate::expressions::utils::number_to_column(column)` => `number_to_column(column)`
+//@rewritex6 `language.errors.r#ref.to_string()` => `language.errors.r#ref.verif_copy()`
 //@after `Some(context) => {`
             let ghost row0 = if reference.absolute_row { reference.row as int } else { reference.row + context.row };
             let ghost col0 = if reference.absolute_column { reference.column as int } else { reference.column + context.column };
-            proof { reveal_strlit("#REF!"); }
-//@before#1 `return "#REF!".to_string();`
+//@before#1 `return language.errors.r#ref.verif_copy();`
                                     assert(disp(*displace_data, sheet_index, full_row, full_column, row0, col0) is None);
-//@before#2 `return "#REF!".to_string();`
+//@before#2 `return language.errors.r#ref.verif_copy();`
                                     assert(disp(*displace_data, sheet_index, full_row, full_column, row0, col0) is None);
-//@before#3 `return "#REF!".to_string();`
+//@before#3 `return language.errors.r#ref.verif_copy();`
                                     assert(disp(*displace_data, sheet_index, full_row, full_column, row0, col0) is None);
-//@before#4 `return "#REF!".to_string();`
+//@before#4 `return language.errors.r#ref.verif_copy();`
                                     assert(disp(*displace_data, sheet_index, full_row, full_column, row0, col0) is None);
 //@before `if !(1..=LAST_ROW).contains(&row) {`
             // every reference that survives keeps pointing at the same cell: its coordinate went through shift / move1
